@@ -20,6 +20,10 @@ SEC, MS, H = m5.SEC, m5.MS, m5.H
 HOSTS = {b"web": b"a.example.com", b"api": b"b.example.com"}
 HEALTH = b"/up"
 YIELDS = ["req:routed", "req:gate-passed", "pause:gate-set", "req:lb-picked"]
+# event kinds that a view or the monitor looks at (model/M5path.v: kept; props/C07.v: c07_dropped_events_ignored);
+# the others are dropped before the trace term is built
+KEPT = {"issue", "return", "respond", "routed", "svc-copy", "slot", "install", "removed", "pick", "gate-set", "gate-read",
+        "gate-wake", "gate-result", "lb-new", "lb-claim", "claim", "claim-refused", "probe-apply", "state-set"}
 
 
 # ------------------------------------------------------------ scenario steps ----
@@ -262,6 +266,8 @@ def run(tier, seed):
     work = Work("C07")
     try:
         ok, blog = coq_build(["props/C07.vo", "corr/C07corr.vo"])
+        if not ok and "No rule to make target" in blog:     # a file of another build vanished under make: once more
+            ok, blog = coq_build(["props/C07.vo", "corr/C07corr.vo"])
         proofs_ok, pa = proof_obligations(work, res, "C07.v", ok, blog)
         gate = coq_gate()
         if gate:
@@ -278,7 +284,7 @@ def run(tier, seed):
                 if o["pending_at_end"]:
                     incomplete.append(tag)
                 flags = list_lit(["(%d, %s)" % (r, bool_lit(h)) for r, h in req_flags(sc)])
-                terms.append("(%s,\n %s)" % (m5.trace_term(o["events"]), flags))
+                terms.append("(%s,\n %s)" % (m5.trace_term([e for e in o["events"] if e["kind"] in KEPT]), flags))
             results = m4x.coq_map(work, IMPORTS, "", terms, EXPR, "C07", shard=6)
         findings = load_findings()
         mon_fail, rejected = [], []
@@ -326,7 +332,7 @@ def run(tier, seed):
             "traces_validated_against_impl": len(results) - len(rejected),
             "rule": "one evaluation = one schedule (forced or random: %d forced, the rest random from the seed, half with instantly "
                     "answering targets and sleeps aimed at the held requests' deadlines +-1 ns, half with slow targets, async commands "
-                    "and drains) run on the real router under the virtual clock; its full event trace is replayed through both acceptors "
+                    "and drains) run on the real router under the virtual clock; its event trace (events of kinds no view looks at dropped: c07_dropped_events_ignored) is replayed through both acceptors "
                     "and judged by the monitor inside Coq; distinct = distinct scenarios by JSON, non-trivial = at least one request "
                     "parked at a paused gate" % len(forced()),
             "input_distribution": {"commands": cmds, "yield_points_armed": arms, "requests": nreq},
